@@ -210,6 +210,8 @@ where
     let output_is_block_dev = is_block_dev(&output_file).await?;
     if output_is_block_dev {
         let size = file_size(&mut output_file).await?;
+        // file_size leaves the cursor at the end of the device
+        output_file.seek(SeekFrom::Start(0)).await?;
         if size < archive.total_source_size() {
             return Err(anyhow!(
                 "Size of output device ({}) is less than archive target file ({})",
